@@ -18,11 +18,12 @@ PROPS = {
     "C05": dict(runs=runs([("core", D), ("core", R), ("block", D), ("utf8", D), ("utf8", R), ("place", D)])),
     "C06": dict(runs=runs([("core", D), ("core", R), ("utf8", D), ("utf8", R), ("place", D)]), determining=True),
     "C07": dict(runs=runs([("core", D), ("core", R), ("place", D)]), determining=True),
-    "C08": dict(runs=runs([("core", D), ("core", R), ("block", D), ("place", D)]), determining=True),
+    "C08": dict(runs=runs([("core", D), ("core", R), ("core", "dev-sse42"), ("core", "dev-nosimd"), ("block", D), ("place", D)]), determining=True),
     "C09": dict(runs=runs([("chunk", D), ("chunk", R)]), determining=True),
     "C10": dict(runs=runs([("core", D), ("core", R), ("block", D)]), determining=True),
     "C11": dict(runs=runs([], [])),   # two-pass witness pipeline, see special_c11
-    "C12": dict(runs=runs([("scan", D), ("swar", D), ("classes", D)], [("scan", D), ("scan", R), ("swar", D), ("classes", D)]), determining=True,
+    "C12": dict(runs=runs([("scan", D), ("scan", "dev-sse42"), ("scan", "dev-avx2"), ("scan", "dev-nosimd"), ("swar", D), ("classes", D)],
+                          [("scan", D), ("scan", R), ("scan", "dev-sse42"), ("scan", "dev-avx2"), ("scan", "dev-nosimd"), ("swar", D), ("classes", D)]), determining=True,
                 trusted=["lane semantics of the x86 intrinsics (validated against the real instructions by the scan family)",
                          "lane semantics of the NEON intrinsics and tools/neon2lean.py (not executable here)"]),
     "C13": dict(runs=runs([("place", D), ("place", R), ("scan", D), ("scan", R), ("chunk", D), ("chunk", R), ("core", D), ("core", R)]),
@@ -117,8 +118,17 @@ def special_c20(tier, seed, th, chk):
         if binp is None:
             out.append({"family": "cost", "variant": variant, "build_failed": True, "log": err, "fails": [], "stats": {}, "samples": {}, "n": 0, "wall": 0})
             continue
+        hung = []
+
         def measure(reps, only=None):
-            o = subprocess.run([binp, "cost", str(small), str(factor), str(reps)] + ([only] if only else []), capture_output=True, text=True, env=chk.ENV, timeout=1800).stdout
+            try:
+                pr = subprocess.run([binp, "cost", str(small), str(factor), str(reps)] + ([only] if only else []), capture_output=True, text=True, env=chk.ENV, timeout=1800)
+                o, rc = pr.stdout, pr.returncode
+            except subprocess.TimeoutExpired as ex:
+                o, rc = (ex.stdout or b"").decode(errors="replace") if isinstance(ex.stdout, bytes) else (ex.stdout or ""), -14
+            if rc != 0:
+                begun = [l for l in o.splitlines() if l.startswith("begin ")]
+                hung.append((begun[-1] if begun else "begin ?") + " rc=%s" % rc)
             rows = {}
             for l in o.splitlines():
                 t = l.split()
@@ -130,6 +140,8 @@ def special_c20(tier, seed, th, chk):
         rows = measure(7)
         fails, samples = [], {}
         n = 0
+        for h in hung:
+            fails.append("FAIL C20 hard | parsing an adversarial input did not return within the 60 s watchdog (or the worker died) | cost %s (hxharness cost) | %s" % (h.split()[1] if len(h.split()) > 1 else "?", h))
         for fam, rs in rows.items():
             for r in rs:
                 n += 1
